@@ -33,7 +33,8 @@ def matrix_table():
 
 p = os.path.join(ROOT, "DESIGN.md")
 s = open(p).read()
-for name, body in (("UNITS", units_table()), ("MATRIX", matrix_table())):
+episodes = "".join(open(os.path.join(ROOT, "NOTES-episodes.md")).readlines()[2:]).strip("\n")
+for name, body in (("UNITS", units_table()), ("MATRIX", matrix_table()), ("EPISODES", episodes)):
     b, e = "<!-- %s-BEGIN -->" % name, "<!-- %s-END -->" % name
     if b in s:
         s = s[:s.index(b) + len(b)] + "\n" + body + "\n" + s[s.index(e):]
